@@ -21,9 +21,7 @@ Set Primitive Projections.
 
 Section Model.
 Variable K : Type.
-Variables (k0 k1 : K) (kadd kmul ksub : K -> K -> K) (kopp : K -> K).
-(* sqrt(2 hbar), its inverse, and cos(pi/4) = sin(pi/4) *)
-Variables (s2h is2h rt : K).
+Context {Kops : Ops K}.
 
 Local Notation "0" := k0.
 Local Notation "1" := k1.
@@ -74,8 +72,8 @@ Definition kind_of (g : gate) : kind :=
   end.
 
 (* ---------------- documented transformation on the gate's own modes (0[,1]) ---------------- *)
-Local Notation a_lin := (a_lin K k0).
-Local Notation a_disp := (a_disp K k0 k1).
+Local Notation a_lin := (a_lin K).
+Local Notation a_disp := (a_disp K).
 Definition hf : K := rt * rt.   (* 1/2 *)
 
 Definition doc (g : gate) : aff :=
@@ -83,13 +81,13 @@ Definition doc (g : gate) : aff :=
   | Dgate r phi => a_disp (s2h * rv r * co phi) (s2h * rv r * si phi)
   | Xgate x => a_disp (rv x) 0
   | Zgate p => a_disp 0 (rv p)
-  | Sgate r phi => a_lin (m_sq K k0 k1 kadd kmul ksub kopp (ch r) (sh r) (co phi) (si phi))
-  | Rgate th => a_lin (m_rot K k0 k1 kopp (co th) (si th))
-  | Pgate s _ _ _ => a_lin (m_shear K k0 k1 (rv s))
-  | BSgate th ph => a_lin (m_bs K k0 kmul kopp (co th) (si th) (co ph) (si ph))
+  | Sgate r phi => a_lin (m_sq K (ch r) (sh r) (co phi) (si phi))
+  | Rgate th => a_lin (m_rot K (co th) (si th))
+  | Pgate s _ _ _ => a_lin (m_shear K (rv s))
+  | BSgate th ph => a_lin (m_bs K (co th) (si th) (co ph) (si ph))
   | MZgate i e =>
       (* U = 1/2 [[(-1+e^{i in}) e^{i ex}, i(1+e^{i in})], [i(1+e^{i in}) e^{i ex}, 1-e^{i in}]] *)
-      a_lin (m_uni K kopp
+      a_lin (m_uni K
         (hf * ((co i - 1) * co e - si i * si e))   (hf * (- si i))
         (hf * (- (si i * co e) - (1 + co i) * si e)) (hf * (1 - co i))
         (hf * ((co i - 1) * si e + si i * co e))   (hf * (1 + co i))
@@ -98,14 +96,14 @@ Definition doc (g : gate) : aff :=
       (* U = (-i/2) [[e1-e2, i(e1+e2)], [i(e1+e2), e2-e1]],  e1 = e^{i a}, e2 = e^{i b}
          ( = e^{i sigma} [[sin d, cos d],[cos d, -sin d]] for a = sigma+d, b = sigma-d, the matrix
            M(sigma, delta) of decompositions.py ) *)
-      a_lin (m_uni K kopp
+      a_lin (m_uni K
         (hf * (si a - si b)) (hf * (co a + co b)) (hf * (co a + co b)) (hf * (si b - si a))
         (hf * (co b - co a)) (hf * (si a + si b)) (hf * (si a + si b)) (hf * (co a - co b)))
-  | S2gate r phi => a_lin (m_s2 K k0 kmul kopp (ch r) (sh r) (co phi) (si phi))
-  | CXgate s _ _ => a_lin (m_cx K k0 k1 kopp (rv s))
-  | CZgate s _ _ => a_lin (m_cz K k0 k1 (rv s))
-  | Fouriergate => a_lin (m_rot K k0 k1 kopp 0 1)
-  | Opaque _ => aid K k0 k1
+  | S2gate r phi => a_lin (m_s2 K (ch r) (sh r) (co phi) (si phi))
+  | CXgate s _ _ => a_lin (m_cx K (rv s))
+  | CZgate s _ _ => a_lin (m_cz K (rv s))
+  | Fouriergate => a_lin (m_rot K 0 1)
+  | Opaque _ => aid K
   end.
 
 (* ---------------- commands ---------------- *)
@@ -113,14 +111,14 @@ Record cmd := mkCmd { cg : gate; cw : list nat; cdag : bool }.
 
 Definition place (ws : list nat) (a : aff) : aff :=
   match ws with
-  | S _ :: _ => aswap K k0 k1 kadd kmul a
+  | S _ :: _ => aswap K a
   | _ => a
   end.
 
 Definition doc_cmd (c : cmd) : aff :=
-  place (cw c) (if cdag c then ainv K k0 k1 kadd kmul kopp (doc (cg c)) else doc (cg c)).
+  place (cw c) (if cdag c then ainv K (doc (cg c)) else doc (cg c)).
 
-Definition sem_seq (l : list aff) : aff := fold_left (fun acc a => acomp K kadd kmul a acc) l (aid K k0 k1).
+Definition sem_seq (l : list aff) : aff := fold_left (fun acc a => acomp K a acc) l (aid K).
 
 (* ---------------- _decompose ---------------- *)
 Definition w0 := [O].
@@ -192,7 +190,7 @@ Definition neg_p0 (g : gate) : gate :=
 (* the backend call made by _apply receives the raw parameter values; the backends implement the
    documented formula for them (tied by the correspondence check against the simulators) *)
 Definition apply_sem (c : cmd) : aff :=
-  if p0z (cg c) then aid K k0 k1
+  if p0z (cg c) then aid K
   else place (cw c) (doc (if cdag c then neg_p0 (cg c) else cg c)).
 
 (* ---------------- Compiler.decompose ---------------- *)
@@ -221,42 +219,60 @@ Fixpoint compile (fuel : nat) (tb : table) (seq : list cmd) : res :=
         res_app head acc) (Ok []) seq
   end.
 
-(* ---------------- well-formedness: the identities the parameter values satisfy ---------------- *)
-Definition wf_ang (a : ang) : Prop :=
-  co a * co a + si a * si a = 1 /\ (az a = true -> co a = 1 /\ si a = 0).
-Definition wf_hyp (h : hyp) : Prop :=
-  ch h * ch h - sh h * sh h = 1 /\ (hz h = true -> ch h = 1 /\ sh h = 0).
-Definition wf_rp (r : rp) : Prop := rz r = true -> rv r = 0.
+(* ---------------- well-formedness: the identities the parameter values satisfy ----------------
+   Written as a list of equations (lhs, rhs) so that the very same list is what the correspondence
+   check evaluates at floats on the parameter values the implementation computes. *)
+Fixpoint all_eq (l : list (K * K)) : Prop :=
+  match l with
+  | [] => True
+  | e :: r => fst e = snd e /\ all_eq r
+  end.
 
-(* s = t + t *)
-Definition wf_P (s : rp) (wr : hyp) (wth wphi : ang) : Prop :=
-  exists t, rv s = t + t /\ co wth * ch wr = 1 /\ si wth * ch wr = t
-            /\ sh wr * co wphi = - (t * si wth) /\ sh wr * si wphi = - (t * co wth).
+Definition eq_ang (a : ang) : list (K * K) := [(co a * co a + si a * si a, 1)].
+Definition eq_hyp (h : hyp) : list (K * K) := [(ch h * ch h - sh h * sh h, 1)].
+(* t = s/2 *)
+Definition eq_P (s : rp) (wr : hyp) (wth wphi : ang) : list (K * K) :=
+  let t := rv s * hf in
+  [(co wth * ch wr, 1); (si wth * ch wr, t);
+   (sh wr * co wphi, - (t * si wth)); (sh wr * si wphi, - (t * co wth))].
 (* sinh r = -s/2, sin 2theta = -1/cosh r, cos 2theta = -tanh r, written division-free with
    em = e^-r = cosh r - sinh r, ep = e^r *)
-Definition wf_CX (s : rp) (wr : hyp) (wth : ang) : Prop :=
+Definition eq_CX (s : rp) (wr : hyp) (wth : ang) : list (K * K) :=
   let em := ch wr - sh wr in let ep := ch wr + sh wr in
-  rv s = em - ep
-  /\ (co wth * si wth) * (em + ep) = - (1)
-  /\ (si wth * si wth) * (em + ep) = ep.
+  [(rv s, em - ep);
+   ((co wth * si wth) * (em + ep), - (1));
+   ((si wth * si wth) * (em + ep), ep)].
 
-Definition wf (g : gate) : Prop :=
+Definition eqs (g : gate) : list (K * K) :=
   match g with
-  | Dgate r phi => wf_rp r /\ wf_ang phi
-  | Xgate x => wf_rp x
-  | Zgate p => wf_rp p
-  | Sgate r phi => wf_hyp r /\ wf_ang phi
-  | Rgate th => wf_ang th
-  | Pgate s wr wth wphi => wf_rp s /\ wf_hyp wr /\ wf_ang wth /\ wf_ang wphi /\ wf_P s wr wth wphi
-  | BSgate th ph => wf_ang th /\ wf_ang ph
-  | MZgate i e => wf_ang i /\ wf_ang e
-  | sMZgate i e => wf_ang i /\ wf_ang e
-  | S2gate r phi => wf_hyp r /\ wf_ang phi
-  | CXgate s wr wth => wf_rp s /\ wf_hyp wr /\ wf_ang wth /\ wf_CX s wr wth
-  | CZgate s wr wth => wf_rp s /\ wf_hyp wr /\ wf_ang wth /\ wf_CX s wr wth
-  | Fouriergate => True
-  | Opaque _ => False
+  | Dgate r phi => eq_ang phi
+  | Xgate x => []
+  | Zgate p => []
+  | Sgate r phi => eq_hyp r ++ eq_ang phi
+  | Rgate th => eq_ang th
+  | Pgate s wr wth wphi => eq_hyp wr ++ eq_ang wth ++ eq_ang wphi ++ eq_P s wr wth wphi
+  | BSgate th ph => eq_ang th ++ eq_ang ph
+  | MZgate i e => eq_ang i ++ eq_ang e
+  | sMZgate i e => eq_ang i ++ eq_ang e
+  | S2gate r phi => eq_hyp r ++ eq_ang phi
+  | CXgate s wr wth => eq_hyp wr ++ eq_ang wth ++ eq_CX s wr wth
+  | CZgate s wr wth => eq_hyp wr ++ eq_ang wth ++ eq_CX s wr wth
+  | Fouriergate => []
+  | Opaque _ => []
   end.
+
+(* the "exactly zero" flag of the first parameter is truthful *)
+Definition zero_flag_ok (g : gate) : Prop :=
+  match g with
+  | Dgate r _ | Xgate r | Zgate r | Pgate r _ _ _ | CXgate r _ _ | CZgate r _ _ => rz r = true -> rv r = 0
+  | Sgate r _ | S2gate r _ => hz r = true -> ch r = 1 /\ sh r = 0
+  | Rgate a | BSgate a _ | MZgate a _ | sMZgate a _ => az a = true -> co a = 1 /\ si a = 0
+  | Fouriergate => True
+  | Opaque _ => True
+  end.
+
+Definition gaussian (g : gate) : Prop := match g with Opaque _ => False | _ => True end.
+Definition wf (g : gate) : Prop := gaussian g /\ all_eq (eqs g) /\ zero_flag_ok g.
 
 Definition wires_ok (c : cmd) : Prop :=
   match cw c with
